@@ -357,7 +357,8 @@ class TestCmd:
         ops = []
         for _ in range(nops):
             op = {"flags": gp.gen_flags(rng, tree, self.all_flag_subsets and rng.random() < 0.5),
-                  "delta": gp.gen_clock_delta(rng), "date_flag": rng.random() < 0.5}
+                  "delta": gp.gen_clock_delta(rng), "date_flag": rng.random() < 0.5,
+                  "spell": rng.choice([0, 0, 0, 1, 2, 4, 3, 5])}
             if rng.random() < self.sv_rate:
                 op["sv"] = rng.choice(SV_KINDS)
             if rng.random() < 0.03:
@@ -437,7 +438,7 @@ class TestCmd:
             delta = op.get("delta", 0)
             clock = step_clock(ctx, clock, delta, two_digit)
             flags = dict(op.get("flags", {}))
-            argv = ["test", text, pattern] + gp.flags_to_argv(flags)
+            argv = ["test", text, pattern] + gp.flags_to_argv(flags, op.get("spell", 0))
             today = clock
             use_date = op.get("date_flag") and (not flags.get("pin_date") or op.get("date_and_pin"))
             if use_date:
